@@ -200,6 +200,7 @@ func genVC(P *Program, C *Contracts, S *Sorts, key string, pure map[*ssa.Functio
 		envPost := f.contractEnv(ct, bind, f.st, entry)
 		for _, e := range ct.Ensures {
 			env := envPost
+			envGhost := map[string]string{}
 			if len(e.Ghost) > 0 {
 				gb := map[string]string{}
 				for k, v := range bind {
@@ -207,6 +208,7 @@ func genVC(P *Program, C *Contracts, S *Sorts, key string, pure map[*ssa.Functio
 				}
 				for _, g := range e.Ghost {
 					gb[g.Name] = ex.decl("ghost."+g.Name, g.Sort)
+					envGhost[g.Name] = gb[g.Name]
 				}
 				env = f.contractEnv(ct, gb, f.st, entry)
 			}
@@ -215,10 +217,29 @@ func genVC(P *Program, C *Contracts, S *Sorts, key string, pure map[*ssa.Functio
 				tags = ct.Tags
 			}
 			eo := f.oblige("ensures", e.Label, implies(retPC, substSX(e.Term, env)), tags, e.Src)
-			if eo != nil && len(f.rets) > 1 && len(f.rets) <= 16 {
+			if eo != nil && len(f.rets) > 1 && len(f.rets) <= 48 {
 				// one query per return site: the same clause, restricted to that site's path condition
 				for _, r := range f.rets {
-					eo.SubGoals = append(eo.SubGoals, implies(and(retPC, r.pc), substSX(e.Term, env)))
+					// the results are named by this site's own values (not by the merged if-then-else term)
+					sb := map[string]string{}
+					for k, v := range bind {
+						sb[k] = v
+					}
+					for i, rvv := range r.vals {
+						old := bind[fmt.Sprintf("result.%d", i)]
+						for k, v := range sb {
+							if v == old && (k == "result" || strings.HasPrefix(k, "result.") || (i < len(rn) && k == rn[i])) {
+								sb[k] = rvv.T
+							}
+						}
+					}
+					for _, g := range e.Ghost {
+						if t, ok := envGhost[g.Name]; ok {
+							sb[g.Name] = t
+						}
+					}
+					senv := f.contractEnv(ct, sb, f.st, entry)
+					eo.SubGoals = append(eo.SubGoals, implies(and(retPC, r.pc), substSX(e.Term, senv)))
 				}
 			}
 			if os.Getenv("GOVC_SPLIT") != "" {
